@@ -53,6 +53,13 @@ def _append_target(t: ast.AST):
         return t.value.slice, t.slice.value
     if is_sym(t, "unpack") and isinstance(t.args[0], ast.Subscript) and isinstance(t.args[1], ast.Constant):
         return t.args[0].slice, t.args[1].value
+    # D.setdefault(key, (.., .., ..))[i]  /  a, b, c = D.setdefault(key, ...)
+    def sd(x):
+        return isinstance(x, ast.Call) and not is_sym(x) and call_fname(x) in ("setdefault", "get") and len(x.args) >= 1
+    if isinstance(t, ast.Subscript) and isinstance(t.slice, ast.Constant) and sd(t.value):
+        return t.value.args[0], t.slice.value
+    if is_sym(t, "unpack") and sd(t.args[0]) and isinstance(t.args[1], ast.Constant):
+        return t.args[0].args[0], t.args[1].value
     return None
 
 
@@ -117,6 +124,8 @@ def grouping(ctx) -> None:
                 dn = fv.cfg.nodes[d]
                 if dn.kind == "stmt" and isinstance(dn.ast, ast.Assign) and isinstance(dn.ast.value, ast.Subscript):
                     raw_key, at = dn.ast.value.slice, d
+                elif dn.kind == "stmt" and isinstance(dn.ast, ast.Assign) and isinstance(dn.ast.value, ast.Call) and call_fname(dn.ast.value) in ("setdefault", "get") and dn.ast.value.args:
+                    raw_key, at = dn.ast.value.args[0], d
         if raw_key is not None:
             for conds, val in fv.alternatives(raw_key, at):
                 mode = None
@@ -379,6 +388,17 @@ def _eval(e: ast.AST, env: dict):
         raise _Unknown(e.id)
     if isinstance(e, ast.Attribute) and isinstance(e.value, ast.Name) and e.attr == "is_trough" and f"{e.value.id}.is_trough" in env:
         return env[f"{e.value.id}.is_trough"]
+    if isinstance(e, ast.Attribute):
+        base = _eval(e.value, env)
+        if isinstance(base, dict) and e.attr in base:
+            return base[e.attr]
+        raise _Unknown(ast.unparse(e)[:40])
+    if isinstance(e, ast.Subscript) and not isinstance(e.slice, ast.Slice):
+        base, idx = _eval(e.value, env), _eval(e.slice, env)
+        try:
+            return base[idx]
+        except (IndexError, KeyError, TypeError):
+            raise _Unknown(ast.unparse(e)[:40])
     if isinstance(e, (ast.Set, ast.Tuple, ast.List)):
         return [_eval(x, env) for x in e.elts]
     if isinstance(e, ast.UnaryOp) and isinstance(e.op, ast.Not):
@@ -470,7 +490,8 @@ def optimize(ctx) -> None:
     for mode in ("auto", "source", "destination", "some other name", ""):
         for st in (False, True):
             for dt in (False, True):
-                env = {"partition_by": mode, "source.is_trough": st, "destination.is_trough": dt, "label": None}
+                env = {"partition_by": mode, "source.is_trough": st, "destination.is_trough": dt, "label": None,
+                       "source": {"is_trough": st, "name": "src"}, "destination": {"is_trough": dt, "name": "dst"}}
                 # module-level constants (e.g. the set of mode names) are part of the closed vocabulary
                 for cname, cval in f.module.assigns.items():
                     try:
